@@ -18,43 +18,63 @@ type lookCase struct {
 	lib  string // library source
 	use  string // declarations of the user package (package gen), entry is `entry`
 	ret  string
+	// further files of the USER package (file name -> source): e.g. one that imports the real library of that name, so
+	// that one package sees both the library and its look-alike, from different files
+	files map[string]string
 }
 
 var lookCases = []lookCase{
 	{"disk-funcs", "disk", "package disk\n\nfunc Read(a uint64) uint64 {\n\treturn a + 100\n}\n\nfunc Size() uint64 {\n\treturn 7\n}\n",
-		"func entry() uint64 {\n\treturn disk.Read(3)*10 + disk.Size()\n}\n", "uint64"},
+		"func entry() uint64 {\n\treturn disk.Read(3)*10 + disk.Size()\n}\n", "uint64", nil},
 	{"disk-type-methods", "disk", "package disk\n\ntype Disk struct {\n\tbase uint64\n}\n\nfunc (d *Disk) Read(a uint64) uint64 {\n\treturn d.base + a\n}\n\nfunc (d *Disk) Size() uint64 {\n\treturn d.base * 2\n}\n\nfunc Mk(b uint64) *Disk {\n\treturn &Disk{base: b}\n}\n",
-		"func entry() uint64 {\n\td := disk.Mk(40)\n\treturn d.Read(2)*1000 + d.Size()\n}\n", "uint64"},
+		"func entry() uint64 {\n\td := disk.Mk(40)\n\treturn d.Read(2)*1000 + d.Size()\n}\n", "uint64", nil},
 	{"disk-value-type", "disk", "package disk\n\ntype Disk struct {\n\tBase uint64\n}\n\nfunc (d Disk) Read(a uint64) uint64 {\n\treturn d.Base + a\n}\n\nfunc (d Disk) Barrier() uint64 {\n\treturn 5\n}\n",
-		"func entry() uint64 {\n\td := disk.Disk{Base: 40}\n\treturn d.Read(2)*1000 + d.Barrier()\n}\n", "uint64"},
+		"func entry() uint64 {\n\td := disk.Disk{Base: 40}\n\treturn d.Read(2)*1000 + d.Barrier()\n}\n", "uint64", nil},
 	{"async-disk-type", "async_disk", "package async_disk\n\ntype Disk struct {\n\tbase uint64\n}\n\nfunc (d *Disk) Size() uint64 {\n\treturn d.base * 2\n}\n\nfunc Mk(b uint64) *Disk {\n\treturn &Disk{base: b}\n}\n",
-		"func entry() uint64 {\n\td := async_disk.Mk(40)\n\treturn d.Size()\n}\n", "uint64"},
+		"func entry() uint64 {\n\td := async_disk.Mk(40)\n\treturn d.Size()\n}\n", "uint64", nil},
 	{"machine-funcs", "machine", "package machine\n\nfunc UInt64Put(p []byte, x uint64) {\n\tp[0] = byte(x + 1)\n}\n\nfunc RandomUint64() uint64 {\n\treturn 4\n}\n",
-		"func entry() uint64 {\n\tb := make([]byte, 8)\n\tmachine.UInt64Put(b, 1)\n\treturn uint64(b[0])*100 + uint64(b[1]) + machine.RandomUint64()\n}\n", "uint64"},
+		"func entry() uint64 {\n\tb := make([]byte, 8)\n\tmachine.UInt64Put(b, 1)\n\treturn uint64(b[0])*100 + uint64(b[1]) + machine.RandomUint64()\n}\n", "uint64", nil},
 	{"machine-assume", "machine", "package machine\n\nfunc Assume(c bool) uint64 {\n\tif c {\n\t\treturn 1\n\t}\n\treturn 2\n}\n",
-		"func entry() uint64 {\n\treturn machine.Assume(false)\n}\n", "uint64"},
+		"func entry() uint64 {\n\treturn machine.Assume(false)\n}\n", "uint64", nil},
 	{"log-println", "log", "package log\n\nfunc Println(p *uint64) {\n\t*p = 9\n}\n",
-		"func entry() uint64 {\n\tp := new(uint64)\n\tlog.Println(p)\n\treturn *p\n}\n", "uint64"},
+		"func entry() uint64 {\n\tp := new(uint64)\n\tlog.Println(p)\n\treturn *p\n}\n", "uint64", nil},
 	{"fmt-printf", "fmt", "package fmt\n\nfunc Printf(p *uint64) {\n\t*p = 9\n}\n",
-		"func entry() uint64 {\n\tp := new(uint64)\n\tfmt.Printf(p)\n\treturn *p\n}\n", "uint64"},
+		"func entry() uint64 {\n\tp := new(uint64)\n\tfmt.Printf(p)\n\treturn *p\n}\n", "uint64", nil},
 	{"sync-mutex", "sync", "package sync\n\ntype Mutex struct {\n\tn uint64\n}\n\nfunc (m *Mutex) Lock() {\n\tm.n = m.n + 1\n}\n\nfunc (m *Mutex) Count() uint64 {\n\treturn m.n\n}\n",
-		"func entry() uint64 {\n\tm := new(sync.Mutex)\n\tm.Lock()\n\tm.Lock()\n\treturn m.Count()\n}\n", "uint64"},
+		"func entry() uint64 {\n\tm := new(sync.Mutex)\n\tm.Lock()\n\tm.Lock()\n\treturn m.Count()\n}\n", "uint64", nil},
 	{"sync-newcond", "sync", "package sync\n\nfunc NewCond(x uint64) uint64 {\n\treturn x + 1\n}\n",
-		"func entry() uint64 {\n\treturn sync.NewCond(4)\n}\n", "uint64"},
+		"func entry() uint64 {\n\treturn sync.NewCond(4)\n}\n", "uint64", nil},
 	{"util-dprintf", "util", "package util\n\nfunc DPrintf(level uint64, format string, p *uint64) {\n\t*p = level + 5\n}\n",
-		"func entry() uint64 {\n\tp := new(uint64)\n\tutil.DPrintf(1, \"x\", p)\n\treturn *p\n}\n", "uint64"},
+		"func entry() uint64 {\n\tp := new(uint64)\n\tutil.DPrintf(1, \"x\", p)\n\treturn *p\n}\n", "uint64", nil},
 	{"primitive-funcs", "primitive", "package primitive\n\nfunc UInt64Get(p []byte) uint64 {\n\treturn uint64(len(p)) + 1000\n}\n",
-		"func entry() uint64 {\n\tb := make([]byte, 8)\n\treturn primitive.UInt64Get(b)\n}\n", "uint64"},
+		"func entry() uint64 {\n\tb := make([]byte, 8)\n\treturn primitive.UInt64Get(b)\n}\n", "uint64", nil},
 	{"filesys-type", "filesys", "package filesys\n\ntype File struct {\n\tn uint64\n}\n\nfunc Mk() File {\n\treturn File{n: 6}\n}\n\nfunc Get(f File) uint64 {\n\treturn f.n\n}\n",
-		"func entry() uint64 {\n\tvar f filesys.File = filesys.Mk()\n\treturn filesys.Get(f)\n}\n", "uint64"},
+		"func entry() uint64 {\n\tvar f filesys.File = filesys.Mk()\n\treturn filesys.Get(f)\n}\n", "uint64", nil},
+	// two files of one package: one imports the real library, the other the user package of the same name
+	{key: "machine-funcs-real-in-earlier-file", name: "machine", lib: "package machine\n\nfunc UInt64Put(p []byte, x uint64) {\n\tp[0] = byte(x + 1)\n}\n\nfunc RandomUint64() uint64 {\n\treturn 4\n}\n",
+		use: "func entry() uint64 {\n\tb := make([]byte, 8)\n\tmachine.UInt64Put(b, 1)\n\treturn uint64(b[0])*100 + uint64(b[1]) + machine.RandomUint64()\n}\n", ret: "uint64",
+		files: map[string]string{"a_enc.go": "package gen\n\nimport \"github.com/goose-lang/goose/machine\"\n\nfunc realPut() uint64 {\n\tb := make([]byte, 8)\n\tmachine.UInt64Put(b, 258)\n\treturn uint64(b[1])\n}\n"}},
+	{key: "machine-funcs-real-in-later-file", name: "machine", lib: "package machine\n\nfunc UInt64Put(p []byte, x uint64) {\n\tp[0] = byte(x + 1)\n}\n\nfunc RandomUint64() uint64 {\n\treturn 4\n}\n",
+		use: "func entry() uint64 {\n\tb := make([]byte, 8)\n\tmachine.UInt64Put(b, 1)\n\treturn uint64(b[0])*100 + uint64(b[1]) + machine.RandomUint64()\n}\n", ret: "uint64",
+		files: map[string]string{"z_enc.go": "package gen\n\nimport \"github.com/goose-lang/goose/machine\"\n\nfunc realPut() uint64 {\n\tb := make([]byte, 8)\n\tmachine.UInt64Put(b, 258)\n\treturn uint64(b[1])\n}\n"}},
+	{key: "sync-mutex-real-in-earlier-file", name: "sync", lib: "package sync\n\ntype Mutex struct {\n\tn uint64\n}\n\nfunc (m *Mutex) Lock() {\n\tm.n = m.n + 1\n}\n\nfunc (m *Mutex) Count() uint64 {\n\treturn m.n\n}\n",
+		use: "func entry() uint64 {\n\tm := new(sync.Mutex)\n\tm.Lock()\n\tm.Lock()\n\treturn m.Count()\n}\n", ret: "uint64",
+		files: map[string]string{"a_lock.go": "package gen\n\nimport \"sync\"\n\nfunc realLock() uint64 {\n\tm := new(sync.Mutex)\n\tm.Lock()\n\tm.Unlock()\n\treturn 1\n}\n"}},
+	{key: "log-println-real-in-earlier-file", name: "log", lib: "package log\n\nfunc Println(p *uint64) {\n\t*p = 9\n}\n",
+		use: "func entry() uint64 {\n\tp := new(uint64)\n\tlog.Println(p)\n\treturn *p\n}\n", ret: "uint64",
+		files: map[string]string{"a_log.go": "package gen\n\nimport \"log\"\n\nfunc realLog(x uint64) uint64 {\n\tlog.Println(x)\n\treturn x\n}\n"}},
 	{"plain-control", "helper", "package helper\n\nfunc Read(a uint64) uint64 {\n\treturn a + 100\n}\n",
-		"func entry() uint64 {\n\treturn helper.Read(3)\n}\n", "uint64"},
+		"func entry() uint64 {\n\treturn helper.Read(3)\n}\n", "uint64", nil},
 }
 
 // c02Lookalikes translates every case and executes the user's entry on the model with the library's own emitted
 // definitions loaded under its package name. A conversion error (in either package) is a legitimate answer.
 func c02Lookalikes(c *ev.Ctx) (tried, executed int) {
-	for i, lc := range lookCases {
+	return lookalikes(c, lookCases, "c02.lookalike-pkg.")
+}
+
+func lookalikes(c *ev.Ctx, cases []lookCase, prefix string) (tried, executed int) {
+	for i, lc := range cases {
 		m, err := newGenModule(c, fmt.Sprintf("mod-c02lk%d", i))
 		if err != nil {
 			c.Inconclusive("module: %v", err)
@@ -66,6 +86,9 @@ func c02Lookalikes(c *ev.Ctx) (tried, executed int) {
 		user := fmt.Sprintf("lku%d", i)
 		src := fmt.Sprintf("package gen\n\nimport \"example.com/gen/%s\"\n\n%s", libDir, lc.use)
 		_ = m.addPackage(user, src, []string{"entry"})
+		for fn, fsrc := range lc.files {
+			_ = os.WriteFile(filepath.Join(m.dir, user, fn), []byte(fsrc), 0644)
+		}
 		tried++
 		goRes, broken, err := m.runGo()
 		if err != nil || len(broken) > 0 {
@@ -84,7 +107,7 @@ func c02Lookalikes(c *ev.Ctx) (tried, executed int) {
 		}
 		libText, userText := gout.files[libDir], gout.files[user]
 		if userText == "" || !strings.Contains(userText, "Definition entry:") {
-			c.Report("c02.lookalike-pkg."+lc.key, fmt.Sprintf("look-alike package %s: no error was reported but the user's entry was not emitted", lc.name), map[string]string{"lib.go": lc.lib, "gen.go": src, "stderr.txt": gout.stderr})
+			c.Report(prefix+lc.key, fmt.Sprintf("look-alike package %s: no error was reported but the user's entry was not emitted", lc.name), map[string]string{"lib.go": lc.lib, "gen.go": src, "stderr.txt": gout.stderr})
 			continue
 		}
 		pkgs := []tvPackage{
@@ -111,7 +134,7 @@ func c02Lookalikes(c *ev.Ctx) (tried, executed int) {
 			if kind == "no-outcome" {
 				detail = "the emitted program does not terminate (Go returned " + d.GoRes + ")"
 			}
-			c.Report("c02.lookalike-pkg."+lc.key, fmt.Sprintf("a user package that is merely NAMED %s (import path example.com/gen/%s) was translated without any error, but the caller does not behave like Go: %s: %s\n  Go:    %s\n  model: %s", lc.name, libDir, kind, detail, d.GoRes, d.ModelRes),
+			c.Report(prefix+lc.key, fmt.Sprintf("a user package that is merely NAMED %s (import path example.com/gen/%s) was translated without any error, but the caller does not behave like Go: %s: %s\n  Go:    %s\n  model: %s", lc.name, libDir, kind, detail, d.GoRes, d.ModelRes),
 				map[string]string{"lib.go": lc.lib, "gen.go": src, "emitted-user.v": userText, "emitted-lib.v": libText})
 			break
 		}
